@@ -130,6 +130,9 @@ def check_subscripts(run, rule, fns):
                 if cpr == ("this", "m_p") or (cp and len(cp) == 1 and env.defs.get(cp[0]) is not None and
                                               path(ir.unwrap_all_casts(env.defs[cp[0]])) == ("this", "m_p")):
                     continue              # a copy of the decoder's cursor: the window is R03.1's business
+                if cp and len(cp) == 1 and env.defs.get(cp[0]) is not None and "this.m_p" in show(env.defs[cp[0]]) and \
+                        ((unwrap(cont) or {}).get("t") or "").rstrip().endswith("*"):
+                    continue              # a pointer computed from a codec's cursor (m_p + n): the buffer discipline rules (R03.1, R06.4) own it
                 n += 1
                 ck = path_str(cpr) if cpr else show(cont)
                 names = {ck}
